@@ -265,6 +265,28 @@ fn check_true_fresh(c: &Case, root: &std::path::Path, root_other: &std::path::Pa
     judge(&warm, other.as_ref(), &fresh, c, out, t);
 }
 
+/// Replay the earlier cases of a warm context on a new context, then judge `c` against a truly new context.
+fn confirm_with_history(hist: &[Case], c: &Case, root: &std::path::Path, root_other: &std::path::Path, out: &mut Out, t: &mut Tally) {
+    install(root, STORE, USER_AC);
+    install(root_other, OTHER_STORE, OTHER_AC);
+    let (Ok(warm), Ok(fresh)) = (Sess::new(c.spec, root), Sess::new(c.spec, root)) else { return };
+    let other = Sess::new(CfgSpec::new(Lay::Phonetic, O_PSUGG | O_ENG), root_other).ok();
+    for h in hist {
+        if run_warm(&warm, if h.second { other.as_ref() } else { None }, h, t).is_err() {
+            let _ = warm.finish();
+        }
+    }
+    t.true_fresh += 1;
+    let mut scratch = Out::new("C05");
+    if !judge(&warm, if c.second { other.as_ref() } else { None }, &fresh, c, &mut scratch, t) {
+        for mut v in scratch.violations.drain(..) {
+            v.case["earlier_cases_in_the_same_context"] = Value::Array(hist.iter().map(case_json).collect());
+            v.observed = format!("{} [after {} earlier cases in the same context]", v.observed, hist.len());
+            out.violation(&v.clause, v.sig, v.case, v.expected, v.observed);
+        }
+    }
+}
+
 fn judge(warm: &Sess, other: Option<&Sess>, reference: &Sess, c: &Case, out: &mut Out, t: &mut Tally) -> bool {
     let a = run_warm(warm, other, c, t);
     let b = run_direct(reference, c, t);
@@ -337,6 +359,32 @@ fn judge(warm: &Sess, other: Option<&Sess>, reference: &Sess, c: &Case, out: &mu
     }
 }
 
+fn parse_case(case: &Value) -> Option<Case> {
+    let spec = case.get("cfg").and_then(CfgSpec::from_json)?;
+    let prior: Vec<(String, u8)> = case
+        .get("prior_words")
+        .and_then(|p| p.as_array())
+        .map(|a| {
+            a.iter()
+                .filter_map(|x| {
+                    let w = x.get(0)?.as_str()?.to_string();
+                    let e = ENDS.iter().position(|n| Some(*n) == x.get(1).and_then(|s| s.as_str()))? as u8;
+                    Some((w, e))
+                })
+                .collect()
+        })
+        .unwrap_or_default();
+    let script: Vec<char> = case.get("edit_script").and_then(|s| s.as_str()).unwrap_or("").chars().map(|c| if c == '⌫' { '\u{8}' } else { c }).collect();
+    Some(Case {
+        spec,
+        prior,
+        script,
+        target: case.get("surviving_text").and_then(|s| s.as_str()).unwrap_or("").to_string(),
+        sel: case.get("final_selection_byte").and_then(|s| s.as_u64()).unwrap_or(0) as u8,
+        second: case.get("second_context_interleaved").and_then(|s| s.as_bool()).unwrap_or(false),
+    })
+}
+
 impl Prop for C05 {
     fn id(&self) -> &'static str {
         "C05"
@@ -346,7 +394,7 @@ impl Prop for C05 {
          0-6 prior words drawn from a vocabulary built to collide with the target (its prefixes, extensions with suffixes, case variants, other wrappings, the 30 base words) each ended by finish / ctrl-backspace / commit of the pre-selected index; \
          the target (wrapped/unwrapped known words and random strings) reached through an insert/backspace edit script with detours; a second context over another user directory with other options poked between events in half of the cases. \
          Reference: a context whose method object is re-created (update_engine to another layout and back) before each comparison types the target directly with the same final selection byte; \
-         every mismatch is re-checked from scratch with truly new contexts before it is reported, and one case in 10 (quick) / 6 (thorough) uses truly new contexts directly. \
+         every mismatch is re-checked from scratch (all earlier cases of that warm context are replayed on a new context, then the case is judged against a truly new context) before it is reported, and one case in 10 (quick) / 6 (thorough) uses truly new contexts directly. \
          distinct_nontrivial = distinct (target, options, selection byte, edit script) tuples compared."
             .into()
     }
@@ -380,7 +428,7 @@ impl Prop for C05 {
         let fresh_every = env.tier.pick(10, 6);
         let Ok(other) = Sess::new(CfgSpec::new(Lay::Phonetic, O_PSUGG | O_ENG), &root_other) else { return };
         // warm contexts per option mask live for the whole shard (that is the point: warm memo)
-        let mut warm: std::collections::HashMap<u16, (Sess, Sess)> = std::collections::HashMap::new();
+        let mut warm: std::collections::HashMap<u16, (Sess, Sess, Vec<Case>)> = std::collections::HashMap::new();
         for i in 0..n {
             let c = gen_case(&mut rng);
             out.begin_case(|| case_json(&c));
@@ -391,12 +439,12 @@ impl Prop for C05 {
             if !warm.contains_key(&c.spec.opts) {
                 match (Sess::new(c.spec, &root), Sess::new(c.spec, &root)) {
                     (Ok(a), Ok(b)) => {
-                        warm.insert(c.spec.opts, (a, b));
+                        warm.insert(c.spec.opts, (a, b, vec![]));
                     }
                     _ => continue,
                 }
             }
-            let (w, r) = warm.get_mut(&c.spec.opts).unwrap();
+            let (w, r, hist) = warm.get_mut(&c.spec.opts).unwrap();
             // re-create the reference's method object: empty memo, store re-read
             let away = CfgSpec::new(Lay::Probhat, 0);
             if r.update(away).is_err() || r.update(c.spec).is_err() {
@@ -412,42 +460,29 @@ impl Prop for C05 {
                 out.sample(s);
             }
             if !ok {
-                // only the verdict of a from-scratch run with truly new contexts counts
+                // only the verdict of a from-scratch run counts: the whole earlier life of the warm context is replayed
+                // on a new context, then the case is judged against a truly new context
                 t.rechecked += 1;
-                check_true_fresh(&c, &root_c, &root_co, out, &mut t);
+                confirm_with_history(hist, &c, &root_c, &root_co, out, &mut t);
                 warm.remove(&c.spec.opts);
+            } else {
+                hist.push(c.clone());
             }
         }
         flush(&t, out);
     }
     fn replay(&self, env: &Env, case: &Value, out: &mut Out) {
-        let Some(spec) = case.get("cfg").and_then(CfgSpec::from_json) else { return };
-        let prior: Vec<(String, u8)> = case
-            .get("prior_words")
-            .and_then(|p| p.as_array())
-            .map(|a| {
-                a.iter()
-                    .filter_map(|x| {
-                        let w = x.get(0)?.as_str()?.to_string();
-                        let e = ["finish", "ctrl-backspace", "commit-preselected"].iter().position(|n| Some(*n) == x.get(1).and_then(|s| s.as_str()))? as u8;
-                        Some((w, e))
-                    })
-                    .collect()
-            })
-            .unwrap_or_default();
-        let script: Vec<char> = case.get("edit_script").and_then(|s| s.as_str()).unwrap_or("").chars().map(|c| if c == '⌫' { '\u{8}' } else { c }).collect();
-        let c = Case {
-            spec,
-            prior,
-            script,
-            target: case.get("surviving_text").and_then(|s| s.as_str()).unwrap_or("").to_string(),
-            sel: case.get("final_selection_byte").and_then(|s| s.as_u64()).unwrap_or(0) as u8,
-            second: case.get("second_context_interleaved").and_then(|s| s.as_bool()).unwrap_or(false),
-        };
+        let Some(c) = parse_case(case) else { return };
         if c.target.is_empty() {
             return;
         }
         let mut t = Tally::default();
+        if let Some(earlier) = case.get("earlier_cases_in_the_same_context").and_then(|e| e.as_array()) {
+            let hist: Vec<Case> = earlier.iter().filter_map(parse_case).collect();
+            confirm_with_history(&hist, &c, &env.root("c05"), &env.root("c05-other"), out, &mut t);
+            flush(&t, out);
+            return;
+        }
         check_true_fresh(&c, &env.root("c05"), &env.root("c05-other"), out, &mut t);
         flush(&t, out);
     }
